@@ -1,4 +1,4 @@
-import ZbossModel.Proofs.Host
+import ZbossModel.Proofs.HostCover
 /-! # C20 - closing or losing the link never strands a caller and is reported once -/
 namespace Zboss.Host
 
@@ -116,6 +116,42 @@ theorem C20_no_spurious_report (st : St) (e : Ev) (he : ∀ b, e ≠ .lost ∧ e
   | close => exact absurd rfl (he true).2.1
   | lost => exact absurd rfl (he true).1
   | setReset b => exact absurd rfl (he b).2.2
+
+/-- `close()` (no reset in progress) leaves the API shut: link gone, listener table empty -/
+theorem C20_close_shuts (st : St) (hnr : st.resetting = false) : Shut (step st .close) :=
+  ⟨(C20_close st hnr).2.1, (C20_close st hnr).1⟩
+
+/-- … and it stays shut whatever happens afterwards (responses, ACKs, timers, cancellations, further closes,
+    loss, new requests - which are refused) -/
+theorem C20_shut_forever (st : St) (h : Shut st) (evs : List Ev) : Shut (evs.foldl step st) := by
+  induction evs generalizing st with
+  | nil => exact h
+  | cons e es ih => exact ih _ (shut_step st e h)
+
+/-- **none waits for its response after close - every history, every scheduling order**: in any state the
+    event loop can be in once the API is shut, every request that is still running carries a response future
+    that is already resolved or cancelled (`got ≠ nothing`); its response timeout plays no role any more -/
+theorem C20_none_awaits_response (hist : List Out) (st : St) (h : MReach hist st) (hs : Shut st) (r : Req)
+    (hr : r ∈ st.reqs) (hp : r.phase ≠ .done) : r.got ≠ .nothing :=
+  no_listener_no_wait hist st h hs.2 r hr hp
+
+/-- such a request, once it is in its response wait, ends at its very next task step; and a request that is
+    about to hand a fragment to the link ends there with `RuntimeError` -/
+theorem C20_next_step_ends (hist : List Out) (st : St) (h : MReach hist st) (hs : Shut st) (i : Nat) (r : Req)
+    (hg : getReq st i = some r) :
+    (r.phase = .waitRsp → ∃ o, (runReq 1 st i).out = st.out ++ [.done i o]) ∧
+    (r.phase = .sendfrag → (runReq 1 st i).out = st.out ++ [.done i .runtimeError]) := by
+  refine ⟨fun hp => ?_, fun hp => sendfrag_step_ends st i r hg hp hs.1⟩
+  have hrm := (getReq_mem st i r hg).1
+  exact waitRsp_step_ends st i r hg hp
+    (C20_none_awaits_response hist st h hs r hrm (by rw [hp]; decide))
+
+/-- the converse of C13's "no residue", for every history: a running request that has been neither answered
+    nor cancelled still has its listener - so `close()`, which cancels every listener, reaches every request -/
+theorem C20_close_reaches_every_request (evs : List Ev) (r : Req) (hr : r ∈ (runEvents {} evs).1.reqs)
+    (hp : r.phase ≠ .done) (hg : r.got = .nothing) : (r.id, r.key) ∈ (runEvents {} evs).1.listeners := by
+  obtain ⟨hist, _, hm⟩ := mreach_run evs
+  exact mreach_cov hist _ hm (core r) (List.mem_map.mpr ⟨r, hr, rfl⟩) hp hg
 
 /-! ## non-vacuity: close with a request awaiting its ACK and one queued: both end within the ACK wait -/
 example : let r := runEvents {} [.start 1 5 true 3 3013, .start 2 1 true 1 5026, .close, .tick]
